@@ -256,7 +256,7 @@ def work(job):
 def main():
     args = sys.argv[1:]
     files = FILES
-    workers, limit = 14, None
+    workers, limit, recheck = 14, None, False
     while args:
         a = args.pop(0)
         if a == '--files':
@@ -265,11 +265,17 @@ def main():
             workers = int(args.pop(0))
         elif a == '--limit':
             limit = int(args.pop(0))
+        elif a == '--recheck':      # only the survivors recorded as undetected / correspondence-only in MUTANTS.json
+            recheck = True
     items = []
     for f in files:
         ms = mutants_of(os.path.join('/repo/oslo_policy', f))
         for i, (d, ln, t) in enumerate(ms):
             items.append(('%s:%d:%d' % (f, ln, i), f, d, ln, t))
+    if recheck:
+        old = json.load(open('/verif/seeded/MUTANTS.json'))
+        want = {k for k, v in old.items() if v.get('verdict') in ('undetected', 'correspondence')}
+        items = [it for it in items if it[0] in want]
     if limit:
         items = items[:limit]
     print('mutants:', len(items), flush=True)
